@@ -201,6 +201,10 @@ func genProduct(g *vlib.G) {
 					return
 				}
 				sa, sb := kd.a.specs[i], kd.b.specs[j]
+				// quick tier: pairs with a 4-node operand: a fixed half.
+				if !thorough && (sa.n == 4 || sb.n == 4) && (i+j)%2 == 1 {
+					continue
+				}
 				key := fmt.Sprintf("%s A[%s] B[%s]", kd.name, kd.a.keys[i], kd.b.keys[j])
 				g.Case(key, func(t *vlib.T) {
 					sa, sb := sa, sb
